@@ -114,6 +114,7 @@ pub fn show_err(e: &Error) -> String {
             format!("Capacity.MessageTooLong({size},{max_size})")
         }
         Error::Capacity(CapacityError::TooManyHeaders) => "Capacity.TooManyHeaders".into(),
+        Error::Protocol(tungstenite::error::ProtocolError::HttparseError(_)) => "Protocol.HttparseError".into(),
         Error::Protocol(p) => format!("Protocol.{p:?}").replace(' ', ""),
         Error::WriteBufferFull(m) => format!("WriteBufferFull({})", show_msg(m)),
         Error::Utf8(_) => "Utf8".into(),
